@@ -34,7 +34,9 @@ SpecA ==
     ("U" :> DUnion("nsa", "", FALSE,
                    <<Tag("tv", TVoid), Tag("tn", TNull(TRef("S"))), Tag("tp", I32b),
                      Tag("ts", TRef("C")), Tag("tu", TRef("K")), Tag("tt", TRef("P")),
-                     Tag("tm", TMap(TRef("L")))>>)) @@
+                     Tag("tm", TMap(TRef("L"))),
+                     \* a nullable member whose struct has no required field: "null" and "no known field" look alike
+                     Tag("te", TNull(TRef("E")))>>)) @@
     ("V" :> DUnion("nsa", "U", FALSE, <<Tag("tw", TNull(TRef("U"))), Tag("tx", TVoid)>>)) @@
     \* a third level: only the root of a chain of open unions owns the catch-all
     ("V3" :> DUnion("nsa", "V", FALSE, <<Tag("ty", TVoid)>>)) @@
@@ -284,11 +286,12 @@ Spec == Init /\ [][Next]_vars
 Fwd == phase = "delivered" /\ dir = "forward"
 Bwd == phase = "delivered" /\ dir = "backward"
 \* old receivers understand new senders
-Forward == Fwd => rl = Ok(View(root, val))
+\* (a value is first identified with what its sender's encoding can express: StoneWire!Canon)
+Forward == Fwd => rl = Ok(View(root, Canon(specB, val)))
 \* a strict (leader) receiver rejects precisely the messages with something unknown
-StrictExact == Fwd => rs = (IF Lossy(root, val) THEN Err ELSE Ok(View(root, val)))
+StrictExact == Fwd => rs = (IF Lossy(root, val) THEN Err ELSE Ok(View(root, Canon(specB, val))))
 \* new receivers understand old senders
-Backward == (Bwd /\ ~ThroughChangedVoid(root, val)) => (rs = Ok(Lift(val)) /\ rl = Ok(Lift(val)))
+Backward == (Bwd /\ ~ThroughChangedVoid(root, val)) => (rs = Ok(Lift(Canon(SpecA, val))) /\ rl = Ok(Lift(Canon(SpecA, val))))
 \* the view of a value A knows entirely is the value itself (up to names)
 ViewIdentity == Fwd => (~Lossy(root, val) => Valid(SpecA, TypeToA(root), View(root, val), {}))
 BStillValid == (Bwd /\ ~ThroughChangedVoid(root, val)) => Valid(specB, TypeToB(root), Lift(val), {})
